@@ -265,7 +265,39 @@ func c13RollbackCorpus() []any {
 	return out
 }
 
-func (*c13) Exhaustive(string) []any { return nil }
+// Exhaustive (thorough tier): every pair of flag combinations (8 x 8) for two consecutive
+// upgrades that are handed the same values map object — the second one on the same release or
+// on a second release —, each followed by a reset-values upgrade with that object (which must
+// record the new values alone) and, for the failure paths, with the first upgrade failing or not.
+func (*c13) Exhaustive(tier string) []any {
+	if tier != "thorough" {
+		return nil
+	}
+	d1 := vtree{"a": int64(1), "t": vtree{"x": "d", "deep": vtree{"d": "d"}}}
+	d2 := vtree{"a": int64(2), "t": vtree{"x": "D", "z": "D"}, "m": "new-default"}
+	over := func() vtree { return vtree{"t": vtree{"y": "s", "deep": vtree{"k": "s"}}, "n": nil} }
+	alpha := vtree{"t": vtree{"x": "u", "deep": vtree{"j": "alpha"}}, "n": "set", "only": "alpha"}
+	beta := vtree{"t": vtree{"z": "beta", "deep": "scalar-here"}}
+	var out []any
+	fl := func(i int) (bool, bool, bool) { return i&4 != 0, i&2 != 0, i&1 != 0 }
+	for f1 := 0; f1 < 8; f1++ {
+		for f2 := 0; f2 < 8; f2++ {
+			for v := 0; v < 4; v++ {
+				rel2, fails := v&1, v&2 != 0
+				a1, b1, c1 := fl(f1)
+				a2, b2, c2 := fl(f2)
+				out = append(out, c13Case{Shared: []vtree{over()}, Ops: []c13Op{
+					{Kind: "install", Rel: 0, Chart: c13Chart("c", d1), Vals: vtCopyMap(alpha)},
+					{Kind: "install", Rel: 1, Chart: c13Chart("c", d1), Vals: vtCopyMap(beta)},
+					{Kind: "upgrade", Rel: 0, Reset: a1, Reuse: b1, RTR: c1, Chart: c13Chart("c", d2), Vals: over(), Share: 1, Fails: fails},
+					{Kind: "upgrade", Rel: rel2, Reset: a2, Reuse: b2, RTR: c2, Chart: c13Chart("c", d2), Vals: over(), Share: 1},
+					{Kind: "upgrade", Rel: 0, Reset: true, Chart: c13Chart("c", d1), Vals: over(), Share: 1},
+				}})
+			}
+		}
+	}
+	return out
+}
 
 // vtFlipTypes: the same keys, but tables become scalars/lists and non-tables become tables
 // for about a third of them (a chart whose defaults changed type between versions).
